@@ -258,6 +258,16 @@ func runReplay(t *testing.T, bind *Binding, job *Job, res *Result) {
 	switch c.Engine {
 	case "", "startsim":
 		vs, _ = RunCase(t, bind, c, job.TmpDir)
+	case "racesim":
+		// re-run the program's parallel protocol; the race detector is the oracle (the
+		// driver looks for its report)
+		j2 := *job
+		j2.Property = "C20"
+		if j2.K == 0 {
+			j2.K = 6
+		}
+		progress(job, "run %s", c.Prog.ID)
+		Protocol(t, bind, &j2, c.Prog, newAcc())
 	default:
 		vs = replayOther(t, bind, c, job)
 	}
